@@ -31,9 +31,79 @@ def make_oracles():
     return [physprop.Confined(), physprop.NewObjectGuard(layout_of), physprop.OthersStayValid()]
 
 
+HOSTILE_CDIRS = ["../../../../../../victim", "../outside", "a/b", "..", ".", "/abs-cdir", "x/../../..", "content/../../../..", "c/./d"]
+TAMPER_BUDGET = {"quick": dict(cases=5, seconds=40), "thorough": dict(cases=80, seconds=600)}
+
+
+def tamper_phase(rep, tier, seed):
+    """content-directory names that did not come through `rocfl new`: the stored inventory of a committed object
+    is rewritten (sidecars kept consistent) to declare a content directory with '..', '/' or '.' parts; every
+    later operation on the object runs under strace and is judged by the same `confined` monitor"""
+    import hashlib, json, os, random, re, time
+    from vlib import phys, physgen, faultprop
+    rng = random.Random(seed + 9)
+    budget = TAMPER_BUDGET["thorough" if tier == "thorough" else "quick"]
+    t_end = time.time() + budget["seconds"]
+    fails = []
+    mon = physprop.Confined()
+    for i in range(budget["cases"]):
+        if time.time() > t_end:
+            break
+        sb = phys.Sandbox(ext_staging=(i % 2 == 1))
+        try:
+            for n, c in {"a.txt": b"alpha", "b.txt": b"beta", "n.txt": b"new", "m.txt": b"moved"}.items():
+                open(os.path.join(sb.src, n), "wb").write(c)
+            layout = rng.choice(["0004-hashed-n-tuple-storage-layout", "0002-flat-direct-storage-layout", "0003-hash-and-id-n-tuple-storage-layout"])
+            sb.run(["init", "-l", layout])
+            oid = "obj"
+            sb.run(["new", oid])
+            sb.run(["cp", oid, os.path.join(sb.src, "a.txt"), os.path.join(sb.src, "b.txt"), "--", "/"])
+            sb.run(["commit", "-c", faultprop.TS, oid])
+            oroot = faultprop.object_root(sb, oid)
+            if oroot is None:
+                continue
+            cdir = HOSTILE_CDIRS[i % len(HOSTILE_CDIRS)] if i < len(HOSTILE_CDIRS) else rng.choice(HOSTILE_CDIRS)
+            for d in ("", "v1"):
+                ip = os.path.join(sb.root, oroot, d, "inventory.json")
+                inv = json.load(open(ip))
+                inv["contentDirectory"] = cdir
+                raw = json.dumps(inv).encode()
+                open(ip, "wb").write(raw)
+                alg = inv["digestAlgorithm"]
+                open(ip + "." + alg, "w").write("%s  inventory.json\n" % hashlib.new(alg, raw).hexdigest())
+            src = lambda n: os.path.join(sb.src, n)
+            ops = [("cpx", ["cp", oid, src("n.txt"), "--", "n.txt"]), ("mvx", ["mv", oid, src("m.txt"), "--", "m.txt"]),
+                   ("cpi", ["cp", "-i", oid, "a.txt", "--", "c.txt"]), ("rm", ["rm", oid, "a.txt"]), ("commit", ["commit", "-c", faultprop.TS, oid])]
+            for kind, args in ops:
+                def outside():
+                    t = dict(phys.tree(sb.dir, exclude=("root", "staging", "src", "home") + tuple(f for f in os.listdir(sb.dir) if f.startswith("trace."))))
+                    t.update({"TOP/" + k: v for k, v in phys.tree(sb.top, exclude=("j1/j2/j3/j4/w",)).items()})
+                    return t
+                pre = outside()
+                res = sb.run(args, trace=True)
+                post = outside()
+                rep.evaluations += 1
+                rep.classes.add("tamper|%s|rc%d" % (kind, min(res["rc"], 3)))
+                rep.count("tamper:%s:%s" % (kind, "ok" if res["rc"] == 0 else "refused"))
+                st = physprop.Step(sb, physgen.Op(kind, args, oid), res, {}, {}, {}, {}, pre, post)
+                for f in mon.check(st):
+                    fails.append("stored contentDirectory %r: %s" % (cdir, f))
+        finally:
+            sb.close()
+    seen = set()
+    for f in fails:
+        key = re.sub(r"[0-9a-f]{8,}|\d+", "#", f)[:70]
+        if key in seen or len(seen) >= 3:
+            continue
+        seen.add(key)
+        rep.violation(dict(kind="oracle-failure", oracle="confined (tampered content directory)", what=f))
+    rep.extra["tamper_failures"] = len(fails)
+
+
 def run(rep, tier, seed, proof_broken=False):
     import vlib.props.C12 as me
     physprop.run(rep, me, tier, seed, proof_broken)
+    tamper_phase(rep, tier, seed)
 
 
 def replay(rep, payload):
